@@ -207,7 +207,7 @@ def name_tlv(comps) -> bytes:
 
 class ParsedData:
     __slots__ = ('wire', 'name', 'name_span', 'meta', 'content', 'sig_info', 'sig_value',
-                 'signed_portion', 'els')
+                 'signed_portion', 'signed_ambiguous', 'els')
 
 
 def parse_data(wire) -> ParsedData:
@@ -232,12 +232,10 @@ def parse_data(wire) -> ParsedData:
     sv = find(els, T_SIG_VALUE)
     p.sig_info = wire[si[2]:si[3]] if si else None
     p.sig_value = wire[sv[2]:sv[3]] if sv else None
-    if si is not None and sv is not None:
-        p.signed_portion = wire[n[1]:si[3]]
-    elif si is not None:
-        p.signed_portion = wire[n[1]:si[3]]
-    else:
-        p.signed_portion = None
+    p.signed_portion = wire[n[1]:si[3]] if si is not None else None
+    # "Name through SignatureInfo" and "everything before SignatureValue" coincide in a well-formed packet;
+    # when an unrecognised element sits between the two the specification texts disagree
+    p.signed_ambiguous = bool(si is not None and sv is not None and sv[1] != si[3])
     return p
 
 
